@@ -45,7 +45,8 @@ MINE = "self.my_peer.public_key.key_to_bin()"
 TRANSACTION = "json.loads(metadata.serialized_json_dict)"
 IMPURE_PREFIXES = ("self.self_advertise", "self.ez_send", "self.pseudonym_manager.", "self.identity_manager.",
                    "pseudonym.create_attestation", "pseudonym.add_attestation", "self._received_disclosure_for_attest",
-                   "self.add_known_hash", "self.request_attestation_advertisement")
+                   "self.add_known_hash", "self.request_attestation_advertisement", "self.get_pseudonym",
+                   "self.database.", "self.tree.")
 
 
 # ---- normalisation -----------------------------------------------------------------------------------------------
@@ -74,6 +75,8 @@ def _clean(stmts):
         for field in ("body", "orelse"):
             if hasattr(st, field) and isinstance(getattr(st, field), list):
                 setattr(st, field, _clean(getattr(st, field)))
+        if isinstance(st, ast.If) and not st.body and not st.orelse:
+            st = ast.Expr(value=st.test)          # `if call(): log else: log`  ==  `call()`
         out.append(st)
     return out
 
@@ -127,15 +130,45 @@ def _n_loads(stmts, name):
                if isinstance(n, ast.Name) and n.id == name and isinstance(n.ctx, ast.Load))
 
 
+PURE_CALLS = re.compile(
+    r"(len|set|list|dict|tuple|any|all|str|int|bytes|enumerate|sorted|cast|time|json\.loads|json\.dumps|struct\.unpack_from"
+    r"|self\.pad_hash|self\._same_json|self\._same_metadata|.*\.database\.get_\w+|.*\.(keys|values|items|get|key_to_bin|get_hash|get_plaintext_signed|get_signature_length|verify|pub))$")
+
+
 def _pure(expr) -> bool:
+    """no call other than a whitelisted read-only one"""
     for n in ast.walk(expr):
-        if isinstance(n, ast.Call):
-            f = ast.unparse(n.func)
-            if f.startswith(IMPURE_PREFIXES):
-                return False
+        if isinstance(n, ast.Call) and not PURE_CALLS.match(ast.unparse(n.func)):
+            return False
         if isinstance(n, (ast.Await, ast.Yield, ast.YieldFrom, ast.NamedExpr)):
             return False
     return True
+
+
+STABLE_CALLS = re.compile(r"(cast|.*\.(key_to_bin|get_hash|get_plaintext_signed|get_signature_length|pub))$")
+
+
+def _stable(expr) -> bool:
+    """a value that cannot change during the function: getters of immutable objects reached from plain names"""
+    for n in ast.walk(expr):
+        if isinstance(n, ast.Call) and not STABLE_CALLS.match(ast.unparse(n.func)):
+            return False
+        if isinstance(n, (ast.Subscript, ast.Await, ast.Yield, ast.YieldFrom, ast.NamedExpr)):
+            return False
+    return True
+
+
+def _quiet(st) -> bool:
+    """a statement that changes nothing but locals: guards that return/raise, pure assignments to plain names"""
+    if isinstance(st, ast.If):
+        return _pure(st.test) and all(_quiet(x) for x in st.body + st.orelse)
+    if isinstance(st, (ast.Return, ast.Raise)):
+        return st.__dict__.get("value") is None or _pure(st.value) if isinstance(st, ast.Return) else True
+    if isinstance(st, ast.Assign):
+        return all(isinstance(t, (ast.Name, ast.Tuple)) for t in st.targets) and _pure(st.value)
+    if isinstance(st, ast.For):
+        return _pure(st.iter) and all(_quiet(x) for x in st.body + st.orelse)
+    return False
 
 
 def _comp_targets(stmts):
@@ -172,6 +205,11 @@ def _inline(stmts):
             if any(_n_stores(stmts, n) != 1 or n in comp for n, _ in pairs):
                 continue
             ok = all(_pure(v) for _, v in pairs)
+            if ok:
+                # the value may only move past statements that change nothing it could read
+                uses = [k for k, r_ in enumerate(rest) if any(_n_loads([r_], n) for n, _ in pairs)]
+                last = uses[-1] if uses else -1
+                ok = all(_quiet(x) for x in rest[:last]) or all(_stable(v) for _, v in pairs)
             if not ok and len(pairs) == 1 and rest and _n_loads(rest, pairs[0][0]) == 1 \
                     and _n_loads(rest[:1], pairs[0][0]) == 1 and not isinstance(rest[0], (ast.For, ast.While)):
                 ok = True
@@ -245,12 +283,45 @@ class _Positional(ast.NodeTransformer):
         return node
 
 
-def normalise(fn: ast.FunctionDef, params: list[str], sigs, consts=None) -> list[ast.stmt]:
+def _is_plain_return(st) -> bool:
+    return isinstance(st, ast.Return) and (st.value is None or (isinstance(st.value, ast.Constant) and st.value.value is None))
+
+
+def _fold_early_returns(stmts, top=True):
+    """`if C: A...; return` followed by B...   ==   `if C: A... else: B...`   (statement level, recursively);
+    `if not X: A else: B`  ==  `if X: B else: A`; a trailing bare `return` is dropped"""
+    out = []
+    stmts = list(stmts)
+    for i, st in enumerate(stmts):
+        if isinstance(st, ast.If):
+            st.body = _fold_early_returns(st.body, False)
+            st.orelse = _fold_early_returns(st.orelse, False)
+            if not st.orelse and st.body and isinstance(st.body[-1], (ast.Return, ast.Raise)) and i + 1 < len(stmts):
+                if _is_plain_return(st.body[-1]) and top:
+                    st.body = st.body[:-1]
+                st.orelse = _fold_early_returns(stmts[i + 1:], top)
+                if isinstance(st.test, ast.UnaryOp) and isinstance(st.test.op, ast.Not):
+                    st.test, st.body, st.orelse = st.test.operand, st.orelse, st.body
+                out.append(st)
+                return out
+            if isinstance(st.test, ast.UnaryOp) and isinstance(st.test.op, ast.Not) and st.orelse:
+                st.test, st.body, st.orelse = st.test.operand, st.orelse, st.body
+        elif isinstance(st, (ast.For, ast.While)):
+            st.body = _fold_early_returns(st.body, False)
+        out.append(st)
+    if top and out and _is_plain_return(out[-1]):
+        out = out[:-1]
+    return out
+
+
+def normalise(fn: ast.FunctionDef, params: list[str], sigs, consts=None, fold_returns=False) -> list[ast.stmt]:
     got = [a.arg for a in fn.args.args]
     if len(got) != len(params) or fn.args.vararg or fn.args.kwarg or fn.args.kwonlyargs:
         raise TranslatorError(f"{fn.name}: parameter list {got} does not match {params}")
     fn = copy.deepcopy(fn)
     body = _clean(fn.body)
+    if fold_returns:
+        body = _clean(_fold_early_returns(body))
     # two-step renaming so that swapped parameter names cannot collide
     tmp = {a: f"__p{i}" for i, a in enumerate(got)}
     body = [_Rename(tmp).visit(s) for s in body]
@@ -600,6 +671,153 @@ def translate(path=None) -> str:
     if extra:
         raise TranslatorError(f"the permissions table is written outside request_attestation_advertisement: {extra}")
 
+    # ---- hand-modelled handlers: their normalised bodies are pinned, a few boolean facts are generated ----------------
+    def pinned(fn, params, accepted, where, sg=None):
+        txt_ = _text(normalise(fn, params, sigs if sg is None else sg, fold_returns=True))
+        for label, want_ in accepted.items():
+            if txt_ == want_:
+                return label
+        raise TranslatorError(f"{where} has an unexpected shape:\n" + txt_)
+
+    RD = ("if any((peer.public_key.key_to_bin() == v6[2] for v6 in self.known_attestation_hashes.values())):\n"
+          "    v3, v4 = self.identity_manager.substantiate(peer.public_key, *disclosure)\n"
+          "    v0 = [v2 for v2 in self.known_attestation_hashes if peer.public_key.key_to_bin() == self.known_attestation_hashes[v2][2]]\n"
+          "    v1 = [v7.content_hash for v7 in v4.tree.elements.values()]\n"
+          "    if COND:\n"
+          "        for v5 in v4.get_credentials():\n"
+          "            if self.should_sign(v4, v5.metadata):\n"
+          "                v8 = v4.create_attestation(v5.metadata, cast('PrivateKey', self.my_peer.key))\n"
+          "                v4.add_attestation(self.my_peer.public_key, v8)\n"
+          "RECORD"
+          "                self.ez_send(peer, AttestPayload(v8.get_plaintext_signed()))\n"
+          "    for v2 in v0:\n"
+          "        if v2 not in v1:\n"
+          "            self.ez_send(peer, RequestMissingPayload(len(v4.tree.elements)))")
+    rec_line = "                self.attested_metadata.add(v5.metadata.get_hash())\n"
+    key_slot = idx["key"]
+    RD = RD.replace("v6[2]", f"v6[{key_slot}]").replace("[v2][2]", f"[v2][{key_slot}]")
+    rd_variants = {}
+    for cl, cond in (("correct", "v3 and any((v2 in v1 for v2 in v0))"), ("nocorrect", "any((v2 in v1 for v2 in v0))")):
+        for rl, rec in (("rec", rec_line), ("norec", "")):
+            rd_variants[cl + ":" + rl] = RD.replace("COND", cond).replace("RECORD", rec)
+    rd = pinned(fns["_received_disclosure_for_attest"], ["self", "peer", "disclosure"], rd_variants,
+                "_received_disclosure_for_attest")
+    sign_needs_correct = rd.startswith("correct")
+    pinned(fns["on_attest"], ["self", "peer", "payload"],
+           {"ok": "self.pseudonym_manager.add_attestation(peer.public_key, "
+                  "Attestation.unserialize(payload.attestation, peer.public_key))"}, "on_attest")
+    pinned(fns["on_disclosure"], ["self", "peer", "disclosure"],
+           {"ok": "self._received_disclosure_for_attest(peer, (disclosure.metadata, disclosure.tokens, "
+                  "disclosure.attestations, disclosure.authorities))"}, "on_disclosure")
+    pinned(fns["on_missing_response"], ["self", "peer", "response"],
+           {"ok": "self._received_disclosure_for_attest(peer, (b'', response.tokens, b'', b''))"}, "on_missing_response")
+    for hname, msg_cls in (("on_attest", "AttestPayload"), ("on_disclosure", "DisclosePayload"),
+                           ("on_missing_response", "MissingResponsePayload"), ("on_request_missing", "RequestMissingPayload")):
+        deco = [ast.unparse(d) for d in fns[hname].decorator_list]
+        if deco != [f"lazy_wrapper({msg_cls})"]:
+            raise TranslatorError(f"{hname} is decorated {deco}, expected the authenticated lazy_wrapper({msg_cls})")
+
+    # manager.py: add_attestation / add_metadata / substantiate / store_new_tokens
+    mpath = (REPO / "ipv8/attestation/identity/manager.py") if path is None else p.parent / "manager.py"
+    add_att_verifies = add_md_verifies = True
+    if mpath.exists():
+        mfns = {}
+        for node in ast.parse(mpath.read_text()).body:
+            if isinstance(node, ast.ClassDef):
+                for st in node.body:
+                    if isinstance(st, ast.FunctionDef):
+                        mfns[(node.name, st.name)] = st
+        def mp(cls_, name_):
+            if (cls_, name_) not in mfns:
+                raise TranslatorError(f"manager.py: {cls_}.{name_} not found")
+            f_ = mfns[(cls_, name_)]
+            return f_, [a.arg for a in f_.args.args]
+        f_, pr = mp("PseudonymManager", "add_attestation")
+        lab = pinned(f_, pr, {
+            "verifies": "if attestation.verify(public_key):\n    self.database.insert_attestation(self.public_key, public_key, attestation)\n    return True\nelse:\n    return False",
+            "unverified": "self.database.insert_attestation(self.public_key, public_key, attestation)\nreturn True"},
+            "PseudonymManager.add_attestation", sg={})
+        add_att_verifies = lab == "verifies"
+        f_, pr = mp("PseudonymManager", "add_metadata")
+        lab = pinned(f_, pr, {
+            "verifies": "if metadata.verify(self.public_key):\n    self.database.insert_metadata(self.public_key, metadata)\n    return True\nelse:\n    return False",
+            "unverified": "self.database.insert_metadata(self.public_key, metadata)\nreturn True"},
+            "PseudonymManager.add_metadata", sg={})
+        add_md_verifies = lab == "verifies"
+        f_, pr = mp("PseudonymManager", "store_new_tokens")
+        pinned(f_, pr, {"ok": "for v0, v1 in list(self.tree.elements.items()):\n    if v0 not in known_tokens:\n"
+                              "        self.database.insert_token(self.public_key, v1)"},
+               "PseudonymManager.store_new_tokens", sg={})
+        f_, pr = mp("IdentityManager", "substantiate")
+        pinned(f_, pr, {"ok":
+            "v0 = self.get_pseudonym(public_key)\n"
+            "v1 = set(v0.tree.elements)\n"
+            "v2 = v0.tree.unserialize_public(serialized_tokens)\n"
+            "v0.store_new_tokens(v1)\n"
+            "v3 = 0\n"
+            "while len(serialized_metadata) > v3:\n"
+            "    v5, = struct.unpack_from('>I', serialized_metadata, v3)\n"
+            "    v4 = Metadata.unserialize(serialized_metadata[v3 + 4:v3 + 4 + v5], public_key)\n"
+            "    v0.add_metadata(v4)\n"
+            "    v3 += 4 + v5\n"
+            "v6 = 0\n"
+            "v7 = 0\n"
+            "while len(serialized_authorities) > v7:\n"
+            "    v9, = struct.unpack_from('>H', serialized_authorities, v7)\n"
+            "    v8 = self.crypto.key_from_public_bin(serialized_authorities[v7 + 2:v7 + 2 + v9])\n"
+            "    v7 += 2 + v9\n"
+            "    v2 &= v0.add_attestation(v8, Attestation.unserialize(serialized_attestations, v8, v6))\n"
+            "    v6 += 32 + v8.get_signature_length()\n"
+            "return (v2, v0)"}, "IdentityManager.substantiate", sg={})
+
+    # tokentree/tree.py (another property's file, pinned only structurally): a token is parked or appended only after
+    # its signature verified, and woken tokens go through gather_token again
+    tpath = (REPO / "ipv8/attestation/tokentree/tree.py") if path is None else p.parent / "tree.py"
+    if tpath.exists():
+        tfns = {}
+        for node in ast.parse(tpath.read_text()).body:
+            if isinstance(node, ast.ClassDef) and node.name == "TokenTree":
+                tfns = {st.name: st for st in node.body if isinstance(st, ast.FunctionDef)}
+        g = tfns.get("gather_token")
+        if g is None or "_append_chain_reaction_token" not in tfns:
+            raise TranslatorError("tree.py: TokenTree.gather_token / _append_chain_reaction_token not found")
+        tok = g.args.args[1].arg
+
+        def guarded(stmts, under):
+            """every park (`self.unchained[...] = ...`) and every append call lies under `if <tok>.verify(self.public_key)`"""
+            for st in stmts:
+                here = under
+                if isinstance(st, ast.If):
+                    t_ = ast.unparse(st.test)
+                    pos = t_ == f"{tok}.verify(self.public_key)"
+                    neg = t_ == f"not {tok}.verify(self.public_key)"
+                    if not guarded(st.body, under or pos):
+                        return False
+                    if not guarded(st.orelse, under or neg):
+                        return False
+                    if neg and st.body and isinstance(st.body[-1], ast.Return):
+                        under = True            # early return on a bad signature: everything after it is guarded
+                    continue
+                for n in ast.walk(st):
+                    if isinstance(n, (ast.Assign, ast.AugAssign)):
+                        tg = n.targets if isinstance(n, ast.Assign) else [n.target]
+                        if any(ast.unparse(x).startswith(("self.unchained[", "self.elements[")) for x in tg) and not here:
+                            return False
+                    if isinstance(n, ast.Call) and ast.unparse(n.func) in ("self._append_chain_reaction_token", "self._append") \
+                            and not here:
+                        return False
+                if isinstance(st, (ast.For, ast.While, ast.With, ast.Try)):
+                    for field in ("body", "orelse", "finalbody"):
+                        if not guarded(getattr(st, field, []) or [], here):
+                            return False
+            return True
+        if not guarded(g.body, False):
+            raise TranslatorError("tree.py: gather_token parks or appends a token before `token.verify(self.public_key)`")
+        woken = [ast.unparse(n) for n in ast.walk(tfns["_append_chain_reaction_token"]) if isinstance(n, ast.Call)]
+        if not any(w_.startswith("self.gather_token(") for w_ in woken) or \
+                sum(1 for w_ in woken if w_.startswith(("self._append_chain_reaction_token(",))) > 0:
+            raise TranslatorError("tree.py: _append_chain_reaction_token does not pass woken tokens through gather_token")
+
     # ---- does the node record what it attests to? ---------------------------------------------------------------------
     records = False
     for n in ast.walk(fns["_received_disclosure_for_attest"]):
@@ -641,6 +859,13 @@ def translate(path=None) -> str:
         "",
         "/-- _received_disclosure_for_attest adds every metadata hash it attests to `attested_metadata` -/",
         f"def recordsOwn : Bool := {'true' if records else 'false'}",
+        "",
+        "/-- _received_disclosure_for_attest signs only `if correct and any(...)`; PseudonymManager.add_attestation /",
+        "    add_metadata store only what verifies (bodies of these functions, of substantiate, store_new_tokens, on_attest,",
+        "    on_disclosure, on_missing_response are pinned by the translator) -/",
+        f"def signNeedsCorrect : Bool := {'true' if sign_needs_correct else 'false'}",
+        f"def addAttestationVerifies : Bool := {'true' if add_att_verifies else 'false'}",
+        f"def addMetadataVerifies : Bool := {'true' if add_md_verifies else 'false'}",
         "",
         "/-- on_request_missing / _fit_disclosure -/",
         f"def handout : Handout := {{ permDefault := {perm_default}, packetLimit := {limit} }}",
